@@ -1081,7 +1081,98 @@ class SymEnum:
         return getattr(self.conc(), name)
 
 
-SYM_TYPES = (SymBool, SymInt, SymFloat, SymChar, SymStr, SymEnum)
+class SymWord:
+    """integer carried as a 128-bit two's complement bit-vector (native z3 BV reasoning for the
+    bitwise built-ins).  Every arithmetic result is assumed to fit: the harness keeps inputs
+    below 2^32 and shift counts <= 64, so 128 bits never overflow."""
+    __slots__ = ("t",)
+    W = 128
+
+    def __init__(self, t):
+        self.t = t
+
+    @classmethod
+    def _c(cls, o):
+        if isinstance(o, SymWord):
+            return o.t
+        if isinstance(o, bool):
+            return z3.BitVecVal(int(o), cls.W)
+        if isinstance(o, int):
+            if not -(2 ** 100) < o < 2 ** 100:
+                raise Unsupported("constant too wide for SymWord")
+            return z3.BitVecVal(o, cls.W)
+        return None
+
+    def _bin(self, o, f):
+        ot = self._c(o)
+        if ot is None:
+            return NotImplemented
+        return SymWord(z3.simplify(f(self.t, ot)))
+
+    def __and__(self, o): return self._bin(o, lambda a, b: a & b)
+    def __or__(self, o): return self._bin(o, lambda a, b: a | b)
+    def __xor__(self, o): return self._bin(o, lambda a, b: a ^ b)
+    def __add__(self, o): return self._bin(o, lambda a, b: a + b)
+    def __sub__(self, o): return self._bin(o, lambda a, b: a - b)
+    def __rsub__(self, o): return self._bin(o, lambda a, b: b - a)
+    __rand__ = __and__
+    __ror__ = __or__
+    __rxor__ = __xor__
+    __radd__ = __add__
+
+    def __invert__(self): return SymWord(z3.simplify(~self.t))
+    def __neg__(self): return SymWord(z3.simplify(-self.t))
+
+    def _shift(self, n, left):
+        if isinstance(n, (SymInt, SymWord)):
+            n = int(n)
+        if n < 0:
+            raise ValueError("negative shift count")
+        if n > 64:
+            raise Unsupported("shift count above 64 in SymWord")
+        if left:
+            return SymWord(z3.simplify(self.t << n))
+        return SymWord(z3.simplify(self.t >> n))      # arithmetic shift, like Python ints
+
+    def __lshift__(self, n): return self._shift(n, True)
+    def __rshift__(self, n): return self._shift(n, False)
+
+    def __mod__(self, o):
+        if isinstance(o, int) and o > 0 and (o & (o - 1)) == 0:
+            return self & (o - 1)            # Python % by a power of two == low bits (floor mod)
+        raise Unsupported("SymWord % non power of two")
+
+    def _cmp(self, o, f):
+        ot = self._c(o)
+        if ot is None:
+            return NotImplemented
+        return _mkb(f(self.t, ot))
+
+    def __lt__(self, o): return self._cmp(o, lambda a, b: a < b)
+    def __le__(self, o): return self._cmp(o, lambda a, b: a <= b)
+    def __gt__(self, o): return self._cmp(o, lambda a, b: a > b)
+    def __ge__(self, o): return self._cmp(o, lambda a, b: a >= b)
+    def __eq__(self, o): return self._cmp(o, lambda a, b: a == b)
+    def __ne__(self, o): return self._cmp(o, lambda a, b: a != b)
+
+    def __bool__(self):
+        return E().decide(z3.simplify(self.t != 0))
+
+    def __index__(self):
+        e = E()
+        if e.eval_model is not None:
+            return e.eval_model.eval(self.t, model_completion=True).as_signed_long()
+        return e.concretise(z3.BV2Int(self.t, True))
+
+    __int__ = __index__
+    def __hash__(self): return hash(self.__index__())
+    def __str__(self): return str(self.__index__())
+    __repr__ = __str__
+    def __format__(self, spec): return format(self.__index__(), spec)
+    def __plain__(self): return self.__index__()
+
+
+SYM_TYPES = (SymBool, SymInt, SymFloat, SymChar, SymStr, SymEnum, SymWord)
 STRLIKE = (SymChar, SymStr, SymEnum)
 
 
